@@ -60,6 +60,19 @@ def _sig_parts(sig):
     return parts, ret.strip()
 
 
+def _fingerprint(b):
+    """Shape of a body that survives renames: multiset of callee method names (last path segment) and terminator kinds."""
+    calls = []
+    kinds = {}
+    for blk in b["blocks"]:
+        t = blk["term"]
+        kinds[t["k"]] = kinds.get(t["k"], 0) + 1
+        if t["k"] in ("call", "tailcall"):
+            c = t["callee"]
+            calls.append(c.get("method") or strip_generics(c.get("path", "")).rsplit("::", 1)[-1])
+    return [sorted(calls), sorted(kinds.items())]
+
+
 def inventory(data):
     fns = {}
     for b in data["bodies"]:
@@ -70,7 +83,7 @@ def inventory(data):
             continue
         fns[k] = {"sig": b.get("sig", ""), "argc": b.get("arg_count", 0),
                   "argnames": [b["locals"][i].get("name") or "" for i in range(1, 1 + b.get("arg_count", 0)) if i < len(b["locals"])],
-                  "callers": []}
+                  "callers": [], "fp": _fingerprint(b)}
     for b in data["bodies"]:
         kb = strip_generics(b["path"])
         root = kb.split("::{closure")[0]
@@ -82,6 +95,17 @@ def inventory(data):
                     ck = strip_generics(cand) if cand else None
                     if ck in fns and ck != root and root not in fns[ck]["callers"]:
                         fns[ck]["callers"].append(root)
+    keys = {strip_generics(b["path"]) for b in data["bodies"]}
+    for b in data["bodies"]:
+        root = strip_generics(b["path"]).split("::{closure")[0]
+        if root not in fns:
+            continue
+        for blk in b["blocks"]:
+            t = blk["term"]
+            if t["k"] == "call" and t["callee"].get("method") in ("call", "call_mut", "call_once"):
+                r = strip_generics(t["callee"].get("resolved") or "")
+                if r in keys and "{closure" in r:
+                    fns[root]["dcc"] = fns[root].get("dcc", 0) + 1
     adts = {}
     for a in data["adts"]:
         adts[a["path"]] = [[[f["name"], f["ty"]["s"]] for f in v["fields"]] for v in a.get("variants", [])]
@@ -148,12 +172,17 @@ def _rename_fn(data, new_key, old_key):
     old_name = old_key.rsplit("::", 1)[-1]
     pat = re.compile(r"::" + re.escape(new_name) + r"(?![A-Za-z0-9_])")
 
+    same_prefix = new_key.rsplit("::", 1)[0] == old_key.rsplit("::", 1)[0]
+
     def fix(s):
         if new_name not in s:
             return s
         sg = strip_generics(s)
         if new_key in sg:
-            return pat.sub("::" + old_name, s)
+            if same_prefix:
+                return pat.sub("::" + old_name, s)
+            if new_key in s:
+                return s.replace(new_key, old_key)   # moved: the whole path changes (only spelled without generics)
         return s
 
     for b in data["bodies"]:
@@ -172,6 +201,12 @@ def _rename_fn(data, new_key, old_key):
                 c = t["callee"]
                 if c.get("method") == new_name and old_key in (strip_generics(c.get("path", "")), strip_generics(c.get("resolved") or "")):
                     c["method"] = old_name
+                    if not same_prefix:
+                        for fld in ("impl_self", "impl_adt", "self_ty"):
+                            c.pop(fld, None)
+        if mine and not same_prefix and strip_generics(b["path"]) == old_key:
+            for fld in ("impl_self", "impl_adt"):
+                b[fld] = None
     for f in data["fns"]:
         if strip_generics(f["path"]) == new_key:
             f["path"] = fix(f["path"])
@@ -314,6 +349,41 @@ def _future_local(b, op, depth=8):
     return l
 
 
+def _inline_direct_closure_calls(data, base):
+    by_key = {}
+    for b in data["bodies"]:
+        by_key.setdefault(strip_generics(b["path"]), b)
+    n = 0
+    for b in data["bodies"]:
+        kb = strip_generics(b["path"])
+        root = kb.split("::{closure")[0]
+        bf = base["fns"].get(root)
+        if bf is None or bf.get("dcc", 0):
+            continue
+        i = 0
+        while i < len(b["blocks"]) and len(b["blocks"]) < 4000:
+            t = b["blocks"][i]["term"]
+            if t["k"] == "call" and t["callee"].get("method") in ("call", "call_mut", "call_once") and len(t["args"]) == 2 \
+                    and isinstance(t.get("dest"), dict):
+                r = strip_generics(t["callee"].get("resolved") or "")
+                cb = by_key.get(r)
+                if cb is not None and "{closure" in r and r != kb and not cb.get("coroutine") and r.startswith(root + "::"):
+                    nparams = cb.get("arg_count", 1) - 1
+                    tup = t["args"][1]
+                    ops = [t["args"][0]]
+                    okargs = True
+                    for j in range(nparams):
+                        if tup.get("k") in ("copy", "move"):
+                            ops.append({"k": tup["k"], "place": {"l": tup["place"]["l"], "p": list(tup["place"]["p"]) + [{"f": f".{j}", "i": j}]}})
+                        else:
+                            okargs = False
+                    if okargs:
+                        _inline_call(b, i, cb, arg_ops=ops)
+                        n += 1
+            i += 1
+    return n
+
+
 def _inline_new_helpers(data, new_keys, log=None):
     by_key = {}
     for b in data["bodies"]:
@@ -432,6 +502,38 @@ def normalize(pkg, data, log=None):
         return data
     cur = inventory(data)
     notes = []
+    # ---- (c0) renamed private types: a vanished ADT and a new one in the same module with the same field types
+    gone_adts = [a for a in base["adts"] if a not in cur["adts"]]
+    new_adts = [a for a in cur["adts"] if a not in base["adts"]]
+    for ga in gone_adts:
+        gp = ga.rsplit("::", 1)[0]
+        shape = [[t for _n, t in v] for v in base["adts"][ga]]
+        gname = ga.rsplit("::", 1)[-1]
+
+        def same_shape(na, _shape=shape, _ga=ga):
+            nshape = [[t.replace(na, _ga) for _n, t in v] for v in cur["adts"][na]]
+            return nshape == _shape
+        cands = [na for na in new_adts if na.rsplit("::", 1)[0] == gp and same_shape(na)]
+        rivals = [g2 for g2 in gone_adts if g2 != ga and g2.rsplit("::", 1)[0] == gp and [[t for _n, t in v] for v in base["adts"][g2]] == shape]
+        if len(cands) == 1 and not rivals:
+            na = cands[0]
+            pat = re.compile(re.escape(na) + r"(?![A-Za-z0-9_])")
+
+            def fixt(x, _pat=pat, _ga=ga, _na=na):
+                return _pat.sub(_ga, x) if _na in x else x
+            for b in data["bodies"]:
+                for fld in ("path", "root", "impl_self", "impl_adt", "sig"):
+                    if isinstance(b.get(fld), str):
+                        b[fld] = fixt(b[fld])
+                _walk_strings(b["blocks"], fixt)
+                _walk_strings(b["locals"], fixt)
+            _walk_strings(data["adts"], fixt)
+            _walk_strings(data["impls"], fixt)
+            _walk_strings(data["fns"], fixt)
+            _walk_strings(data.get("statics", []), fixt)
+            notes.append(f"type {na} -> {ga}")
+    if gone_adts and new_adts:
+        cur = inventory(data)
     # ---- (c) field renames
     for path, bvars in base["adts"].items():
         cvars = cur["adts"].get(path)
@@ -459,19 +561,58 @@ def normalize(pkg, data, log=None):
     gone = [k for k in base["fns"] if k not in cur["fns"]]
     new = [k for k in cur["fns"] if k not in base["fns"]]
     renamed = {}
+
+    def _fp_eq(a, b):
+        return a is not None and b is not None and json.dumps(a) == json.dumps(b)
     for g in gone:
         gp = g.rsplit("::", 1)[0]
         gs = base["fns"][g]["sig"]
         cands = [n for n in new if n.rsplit("::", 1)[0] == gp and cur["fns"][n]["sig"] == gs and n not in renamed]
-        if len(cands) == 1:
-            # the candidate must not be an equally good match for another vanished function
-            others = [g2 for g2 in gone if g2 != g and g2.rsplit("::", 1)[0] == gp and base["fns"][g2]["sig"] == gs]
-            if not others:
-                renamed[cands[0]] = g
+        others = [g2 for g2 in gone if g2 != g and g2.rsplit("::", 1)[0] == gp and base["fns"][g2]["sig"] == gs]
+        if len(cands) == 1 and not others:
+            renamed[cands[0]] = g
+        elif cands and (len(cands) > 1 or others):
+            # several same-signature functions were renamed together (e.g. the entries of a vtable): tell them apart by body shape
+            gfp = base["fns"][g].get("fp")
+            hit = [n for n in cands if _fp_eq(cur["fns"][n].get("fp"), gfp)]
+            rivals = [g2 for g2 in others if _fp_eq(base["fns"][g2].get("fp"), gfp)]
+            if len(hit) == 1 and not rivals:
+                renamed[hit[0]] = g
+    # moved functions: same name and signature under a different path (free fn -> method, other module/file)
+    for g in gone:
+        if g in renamed.values():
+            continue
+        gname = g.rsplit("::", 1)[-1]
+        gs = base["fns"][g]["sig"]
+        cands = [n for n in new if n not in renamed and n.rsplit("::", 1)[-1] == gname and cur["fns"][n]["sig"] == gs]
+        rivals = [g2 for g2 in gone if g2 != g and g2 not in renamed.values() and g2.rsplit("::", 1)[-1] == gname and base["fns"][g2]["sig"] == gs]
+        if len(cands) == 1 and not rivals:
+            renamed[cands[0]] = g
     for n, g in renamed.items():
         _rename_fn(data, n, g)
         notes.append(f"fn {n} -> {g}")
     if renamed:
+        cur = inventory(data)
+        new = [k for k in cur["fns"] if k not in base["fns"]]
+        # second pass: what was ambiguous may have become unique (or its body shape recognisable) once its siblings are back
+        gone2 = [k for k in base["fns"] if k not in cur["fns"]]
+        for g in gone2:
+            gp = g.rsplit("::", 1)[0]
+            gs = base["fns"][g]["sig"]
+            cands = [n for n in new if n.rsplit("::", 1)[0] == gp and cur["fns"][n]["sig"] == gs]
+            others = [g2 for g2 in gone2 if g2 != g and g2.rsplit("::", 1)[0] == gp and base["fns"][g2]["sig"] == gs]
+            pick = None
+            if len(cands) == 1 and not others:
+                pick = cands[0]
+            elif cands:
+                hit = [n for n in cands if _fp_eq(cur["fns"][n].get("fp"), base["fns"][g].get("fp"))]
+                if len(hit) == 1 and not [g2 for g2 in others if _fp_eq(base["fns"][g2].get("fp"), base["fns"][g].get("fp"))]:
+                    pick = hit[0]
+            if pick:
+                _rename_fn(data, pick, g)
+                notes.append(f"fn {pick} -> {g}")
+                new.remove(pick)
+                renamed[pick] = g
         cur = inventory(data)
         new = [k for k in cur["fns"] if k not in base["fns"]]
     # ---- (b) parameter permutations
@@ -505,6 +646,11 @@ def normalize(pkg, data, log=None):
     if folded:
         data["_folded"] = folded
         notes.append(f"functions folded into their only caller: {folded}")
+    # ---- (f) a local closure that is called directly (`let next = || ..; while let Some(x) = next() {..}`) in a function that
+    # had no such call in the baseline: splice the closure body in at the call
+    n_cl = _inline_direct_closure_calls(data, base)
+    if n_cl:
+        notes.append(f"directly called local closures inlined: {n_cl}")
     # ---- (d) new helpers
     dropped = _inline_new_helpers(data, set(new), log=log)
     if dropped:
